@@ -86,7 +86,9 @@ MutCov(a) == h[a].cov.present /\ ~Aliased(a) /\ tok' = tok + 1 /\ Upd(a, [h[a] E
 CovFrame(a, fr) == h[a].cov.present /\ ~Aliased(a) /\ fr # h[a].cov.fr /\ tok' = tok
                    /\ Upd(a, [h[a] EXCEPT !.cov.fr = fr], "covframe", fr, "-")
 Pickle(a) == New([h[a] EXCEPT !.grp = FreshGrp], "pickle", a, "-", "-")
-AsOrbit(a) == h[a].kind = "statevector" /\ New([h[a] EXCEPT !.kind = "orbit"], "asorbit", a, "-", "-")
+\* as_orbit on a bare state vector gives it a propagator; on an orbit it gives a second orbit with another propagator - the
+\* receiver keeps its kind (and, on the real objects, its own propagator: checked by the replay)
+AsOrbit(a) == New([h[a] EXCEPT !.kind = "orbit"], "asorbit", a, "-", "-")
 AsSV(a) == h[a].kind = "orbit" /\ New([h[a] EXCEPT !.kind = "statevector"], "assv", a, "-", "-")
 
 Next ==
